@@ -47,7 +47,7 @@ Menu ==
                                                               r1 \in RandomSubset(2, Trees), r2 \in RandomSubset(2, Trees)}
   \cup {Stmt("seqrequires", q, <<r>>, None, 0, FALSE, 0) : q \in Made({"seq"}), r \in RandomSubset(3, Trees)}
   \cup {Stmt("add", p, <<l>>, None, 0, FALSE, 0) : p \in Made({"sched", "pure"}), l \in RandomSubset(3, Leaves)}
-  \cup {Stmt("update", p, a, None, 0, FALSE, 0) : p \in Made({"sched", "pure"}), a \in RandomSubset(3, FlatArgs)}
+  \cup {Stmt("update", p, a, None, 0, FALSE, x) : p \in Made({"sched", "pure"}), a \in RandomSubset(3, FlatArgs), x \in 0..3}
   \cup {Stmt("remove", p, <<>>, None, 0, FALSE, x) : p \in Made({"sched", "pure"}), x \in RandomSubset(2, Made({"job", "sched"}))}
 
 (* a PureScheduler takes neither required= nor scheduler=; a scheduler is   *)
